@@ -92,6 +92,12 @@ def cases(tier, seed):
             for agg in ("all", "pc"):
                 for second in (["missing", "newstate"], ["nan_result", "newstate"]):
                     out.append(dict(seed=seed, bg=S.bg_for(setup), probes=[["state_blocklisted", "newstate"], second], cfg=S.cfg_for(setup, agg, policy, 100)))
+    # two polls of one night: the caller keeps its feed DataFrame and overwrites the counts in place; the second run must
+    # report the second poll's counts
+    for setup in ("np2", "ga1", "bs1"):
+        for agg in ("all", "pc"):
+            for same_client in (False, True):
+                out.append(dict(kind="polls", seed=seed, bg=S.bg_for(setup), probes=[["nonrep_partial", "pop0"], ["unexpected", "newcounty"]], cfg=S.cfg_for(setup, agg, "drop", 100), same_client=same_client))
     # outlier models enabled (the default of the public API): 24 reporting units, one of them an outlier for both the
     # turnout-factor and the margin model, one for the margin model only
     for setup in ("bs1", "np1", "ga1"):
@@ -211,9 +217,56 @@ def check_tables(units, cfg, tables, V, cov):
     return cats
 
 
+def _polls(case):
+    """first poll: every count at about half and nothing complete yet for a third of the units; second poll: the scenario's counts"""
+    from collections import Counter
+
+    cov = Counter()
+    V = []
+    cfg = case["cfg"]
+    units2 = S.build_units(case)
+    units1 = []
+    for i, u in enumerate(units2):
+        v = dict(u)
+        if i % 3 == 0:
+            v.update(r_dem=u["r_dem"] // 2, r_gop=u["r_gop"] // 3, r_turnout=u["r_turnout"] // 2, pev=min(u["pev"], 50.0))
+        else:
+            v.update(r_dem=int(u["r_dem"] * 0.9), r_gop=int(u["r_gop"] * 0.8), r_turnout=int(u["r_turnout"] * 0.9))
+        units1.append(v)
+    baseline, feed = E.frames(units1, cfg)
+    _, feed2 = E.frames(units2, cfg)
+    from elexmodel.client import ModelClient
+
+    client = ModelClient()
+    a = E.run_estimates(units1, cfg, client=client, frames_override=(baseline, feed))
+    if "error" in a:
+        cov["runs_raised_" + a["error"][0]] += 1
+    else:
+        check_tables(units1, cfg, a["ok"], V, cov)
+    # the caller overwrites the live columns of its own frame (same row order, same object)
+    for c in ("results_turnout", "results_dem", "results_gop", "percent_expected_vote"):
+        feed[c] = feed2[c].values
+    b = E.run_estimates(units2, cfg, client=client if case["same_client"] else None, frames_override=(E.frames(units2, cfg)[0], feed))
+    if "error" in b:
+        V.append({"sig": f"C01:second-poll-raised:{cfg['pi_method']}", "msg": f"second poll on the same feed frame raised {b['error']}"})
+    else:
+        n0 = len(V)
+        check_tables(units2, cfg, b["ok"], V, cov)
+        for v in V[n0:]:
+            v["sig"] = v["sig"].replace("C01:", "C01:second-poll:", 1)
+            v["msg"] = "second poll (caller's feed frame updated in place): " + v["msg"]
+    cov["two_poll_histories"] += 1
+    uniq = {}
+    for v in V:
+        uniq.setdefault(v["sig"], v)
+    return {"violations": list(uniq.values()), "cov": dict(cov), "outcome": sha([sorted(uniq)])[:16], "nontrivial": True, "transitions": 2}
+
+
 def evaluate(case):
     from collections import Counter
 
+    if case.get("kind") == "polls":
+        return _polls(case)
     cov = Counter()
     units = S.build_units(case)
     cfg = case["cfg"]
@@ -237,4 +290,4 @@ def evaluate(case):
     }
 
 
-REQUIRED_COUNTERS = {"runs_completed": 500, "groups_only_passthrough": 10, "groups_only_nonreporting": 10, "scenarios_with_ge3_categories": 10, "units_without_results": 50, "outlier_flagged_units": 20}
+REQUIRED_COUNTERS = {"runs_completed": 500, "groups_only_passthrough": 10, "groups_only_nonreporting": 10, "scenarios_with_ge3_categories": 10, "units_without_results": 50, "outlier_flagged_units": 20, "two_poll_histories": 10}
